@@ -400,7 +400,14 @@ mod inner {
         }
 
         pub fn push(&mut self, value: f64) {
-            self.inner.push(value);
+            // Same as the compact variant: everything that isn't strictly
+            // positive counts as zero so that both variants always contain
+            // the same values.
+            if value.to_bits() > 0 && value.is_sign_positive() {
+                self.inner.push(value);
+            } else {
+                self.inner.push(0.0);
+            }
         }
 
         pub fn sort_desc(&mut self) {
